@@ -46,6 +46,12 @@ type UnitCase struct {
 	// semver
 	A string `json:"a,omitempty"`
 	B string `json:"b,omitempty"`
+	// keyaccessor
+	Which string   `json:"which,omitempty"`
+	Mode  string   `json:"mode,omitempty"`
+	Vals  []string `json:"vals"`
+	PM    []string `json:"pm"`
+	Probe string   `json:"probe"`
 	// clause / accessor
 	Idx    int      `json:"idx,omitempty"`
 	Nil    bool     `json:"nil,omitempty"`
@@ -160,6 +166,110 @@ func (c *UnitCase) run() {
 		} else {
 			c.Go = map[string]any{"match": m, "err": nil}
 		}
+	case "keyaccessor":
+		// the four key accessors with an arbitrary probe key, on a list that is plain, preprocessed,
+		// preprocessed twice, changed after preprocessing, or changed and preprocessed again
+		vals := cloneStrs(c.Vals)
+		if vals == nil {
+			vals = []string{}
+		}
+		mutate := func(xs []string) []string {
+			out := append([]string{}, xs...)
+			if len(out) > 0 {
+				out = out[1:]
+			}
+			return append(out, "added-later")
+		}
+		var found bool
+		var has bool
+		var pm []string
+		switch c.Which {
+		case "target", "ctarget":
+			f := ldmodel.FeatureFlag{}
+			if c.Which == "target" {
+				f.Targets = []ldmodel.Target{{Values: vals, Variation: 1}}
+			} else {
+				f.ContextTargets = []ldmodel.Target{{ContextKind: "org", Values: vals, Variation: 1}}
+			}
+			tp := func() *ldmodel.Target {
+				if c.Which == "target" {
+					return &f.Targets[0]
+				}
+				return &f.ContextTargets[0]
+			}
+			switch c.Mode {
+			case "pre":
+				ldmodel.PreprocessFlag(&f)
+			case "pre2":
+				ldmodel.PreprocessFlag(&f)
+				ldmodel.PreprocessFlag(&f)
+			case "premut":
+				ldmodel.PreprocessFlag(&f)
+				tp().Values = mutate(tp().Values)
+			case "premutpre":
+				ldmodel.PreprocessFlag(&f)
+				tp().Values = mutate(tp().Values)
+				ldmodel.PreprocessFlag(&f)
+			}
+			c.Vals = nonNilStrs(tp().Values)
+			has, pm = hookTargetMap(tp())
+			t := tp()
+			if c.Nil {
+				t = nil
+			}
+			found = ldmodel.EvaluatorAccessors.TargetFindKey(t, c.Probe)
+		default:
+			s := ldmodel.Segment{}
+			get := func() *[]string { return &s.Included }
+			switch c.Which {
+			case "exc":
+				get = func() *[]string { return &s.Excluded }
+			case "segtarget":
+				s.IncludedContexts = []ldmodel.SegmentTarget{{ContextKind: "org", Values: vals}}
+				get = func() *[]string { return &s.IncludedContexts[0].Values }
+			}
+			*get() = vals
+			switch c.Mode {
+			case "pre":
+				ldmodel.PreprocessSegment(&s)
+			case "pre2":
+				ldmodel.PreprocessSegment(&s)
+				ldmodel.PreprocessSegment(&s)
+			case "premut":
+				ldmodel.PreprocessSegment(&s)
+				*get() = mutate(*get())
+			case "premutpre":
+				ldmodel.PreprocessSegment(&s)
+				*get() = mutate(*get())
+				ldmodel.PreprocessSegment(&s)
+			}
+			c.Vals = nonNilStrs(*get())
+			hasI, inc, hasE, exc := hookSegmentMaps(&s)
+			sp := &s
+			if c.Nil {
+				sp = nil
+			}
+			switch c.Which {
+			case "inc":
+				has, pm = hasI, inc
+				found = ldmodel.EvaluatorAccessors.SegmentFindKeyInIncluded(sp, c.Probe)
+			case "exc":
+				has, pm = hasE, exc
+				found = ldmodel.EvaluatorAccessors.SegmentFindKeyInExcluded(sp, c.Probe)
+			default:
+				has, pm = hookSegmentTargetMap(&s.IncludedContexts[0])
+				st := &s.IncludedContexts[0]
+				if c.Nil {
+					st = nil
+				}
+				found = ldmodel.EvaluatorAccessors.SegmentTargetFindKey(st, c.Probe)
+			}
+		}
+		c.PM = nil
+		if has {
+			c.PM = nonNilStrs(pm)
+		}
+		c.Go = map[string]any{"found": found}
 	case "accessor":
 		// the exported accessors, called the way any caller may: nil clause, negative and
 		// out-of-range indexes, operators that do not match the kind of value asked for
